@@ -110,6 +110,11 @@ fn menu_for(spec: &Spec) -> Vec<u8> {
     }
     if spec.has_fallible() {
         menu.push(D_ERR);
+        if spec.is_named() {
+            for k in 0..spec.sets.len() {
+                menu.push(d_switch_err(k));
+            }
+        }
     }
     menu
 }
@@ -673,6 +678,26 @@ impl Explorer<'_, '_> {
             (None, Re::Cat(c, x)) if **x == Re::Char('x') => (c, "", "x"),
             (None, r) => (r, "", ""),
         };
+        // (a) every rule is `'p' C` with its own first character p: each class is swept behind its p;
+        // (b) one rule is a class C (or C+) beside string rules of two or more characters (decoys
+        //     whose first character lies in C): C is swept alone, the decoys cannot match one character
+        let rules = &spec.sets[0].rules;
+        let prefixed: Vec<(char, &Re)> = rules.iter().filter_map(|r| match (&r.ctx, &r.re) { (None, Re::Cat(p, c)) => match &**p { Re::Char(pc) if class_of(c, &env).is_some() => Some((*pc, &**c)), _ => None }, _ => None }).collect();
+        if rules.len() > 1 && prefixed.len() == rules.len() {
+            for (i, (p, c)) in prefixed.iter().enumerate() {
+                let set = crate::iset::scalar_only(&class_of(c, &env).unwrap());
+                self.sweep_case(&p.to_string(), "", &set, &[], i);
+            }
+            return;
+        }
+        let decoys = rules.iter().filter(|r| matches!(&r.re, Re::Str(s) if s.chars().count() >= 2) && r.ctx.is_none()).count();
+        if decoys > 0 && decoys + 1 == rules.len() {
+            let (i, r) = rules.iter().enumerate().find(|(_, r)| !matches!(&r.re, Re::Str(_))).unwrap();
+            let c = match &r.re { Re::Plus(c) => &**c, c => c };
+            let set = crate::iset::scalar_only(&class_of(c, &env).expect("class sweep needs a class"));
+            self.sweep_case("", "", &set, &[], i);
+            return;
+        }
         let set = crate::iset::scalar_only(&class_of(class_re, &env).expect("class sweep needs a class"));
         // several rules, each a bare class: the first listed rule containing the character wins
         let multi: Vec<crate::iset::ISet> = if spec.sets[0].rules.len() > 1 && prefix.is_empty() && suffix.is_empty() && spec.sets[0].rules.iter().all(|r| r.ctx.is_none() && class_of(&r.re, &env).is_some()) {
@@ -680,6 +705,14 @@ impl Explorer<'_, '_> {
         } else {
             vec![]
         };
+        self.sweep_case(prefix, suffix, &set, &multi, 0);
+    }
+
+    /// Run `prefix c suffix` for every point c; expected: token `rule0` (or the first class of
+    /// `multi` containing c) over `prefix c` / `c suffix`, else InvalidToken at 0.
+    fn sweep_case(&mut self, prefix: &str, suffix: &str, set: &crate::iset::ISet, multi: &[crate::iset::ISet], rule0: usize) {
+        let set = set.clone();
+        let ctx_mode = prefix == "a" && self.l.spec.sets[0].rules[0].ctx.is_some();
         let mut points: Vec<u32> = vec![];
         if self.plan.sweep_all {
             points.extend((0..=0x10FFFFu32).filter(|c| char::from_u32(*c).is_some()));
@@ -721,12 +754,12 @@ impl Explorer<'_, '_> {
             let args = RunArgs { input: &input, script: &[], ctor: self.plan.ctors[0], probes: false, nones: 1, no_text: true, split: 0 };
             let (t, _, _) = (self.l.runner)(&args, &Mode::Plain);
             self.c.executions += 1;
-            let winner: Option<usize> = if multi.is_empty() { if crate::iset::contains(&set, q) { Some(0) } else { None } } else { multi.iter().position(|s| crate::iset::contains(s, q)) };
+            let winner: Option<usize> = if multi.is_empty() { if crate::iset::contains(&set, q) { Some(rule0) } else { None } } else { multi.iter().position(|s| crate::iset::contains(s, q)) };
             let member = winner.is_some();
             if member {
                 self.c.rewinds += 1; // counts members seen (non-vacuity), reported under its own name
             }
-            let lexeme_end = if prefix.is_empty() { input.len() } else { prefix.len() };
+            let lexeme_end = if ctx_mode { prefix.len() } else { input.len() };
             let ok = match t.first().map(|s| &s.item) {
                 Some(Item::Tok(a, r, b)) => Some(*r) == winner && a.byte_idx == 0 && b.byte_idx == lexeme_end,
                 Some(Item::Invalid(l)) => !member && l.byte_idx == 0,
